@@ -241,3 +241,232 @@ Proof.
     destruct (nth_error (r_ch (d_s d)) p) as [ch|]; [|discriminate]. cbn [option_map] in H.
     inversion H; subst. exists ch. split; reflexivity.
 Qed.
+
+(* ---- trace level: what a protocol that is alive at the end has been handed ---- *)
+Definition dstarted (r : dout) : bool := (do_code r =? 0) || (do_code r =? 1).
+Definition dsent_p (p : nat) (o : dop) (r : dout) : list item :=
+  match o with
+  | DEst c _ | DBase (REst c) => if dstarted r then [IEst c] else []
+  | DBase (RClosed c) => if do_code r =? 2 then [] else [IClosed c]
+  | DBase (RSubOpen c q d) => if dstarted r && Nat.eqb (N.to_nat q) p then [IOpened c d] else []
+  | DBase (RSubFail c q i) => if dstarted r && Nat.eqb (N.to_nat q) p then [IFailure c i] else []
+  | _ => []
+  end.
+
+Lemma sent_p_lift p b r :
+  (forall c, b = RClosed c -> o_code r = 0 \/ o_code r = 1 \/ o_code r = 2) ->
+  sent_p p b r = dsent_p p (DBase b) (lift r).
+Proof.
+  intros HC. unfold sent_p, dsent_p, dstarted, started, lift. cbn [do_code].
+  destruct b as [c q d|c q i|c|c|q k].
+  - destruct ((o_code r =? 0) || (o_code r =? 1)); cbn [andb]; [destruct (Nat.eqb _ _)|]; reflexivity.
+  - destruct ((o_code r =? 0) || (o_code r =? 1)); cbn [andb]; [destruct (Nat.eqb _ _)|]; reflexivity.
+  - reflexivity.
+  - destruct (HC c eq_refl) as [E|[E|E]]; rewrite E; reflexivity.
+  - destruct ((o_code r =? 0) || (o_code r =? 1)); reflexivity.
+Qed.
+Lemma rclosed_code s c :
+  let r := snd (rstep s (RClosed c)) in o_code r = 0 \/ o_code r = 1 \/ o_code r = 2.
+Proof.
+  cbn [rstep]. destruct (busy s c); cbn [snd o_code]; [auto|].
+  match goal with |- context [if ?b then 1 else 0] => destruct b end; auto.
+Qed.
+
+Lemma is_dead_cons d q p D G : is_dead (mkD (d_s d) (q :: D) G) p = (p =? q) || existsb (N.eqb p) D.
+Proof. reflexivity. Qed.
+
+Lemma dstep_logs d o p ch :
+  d_gone d = [] -> nth_error (r_ch (d_s d)) p = Some ch ->
+  is_dead (fst (dstep d o)) (N.of_nat p) = false ->
+  exists ch', nth_error (r_ch (d_s (fst (dstep d o)))) p = Some ch' /\
+              racc ch' = racc ch ++ dsent_p p o (snd (dstep d o)).
+Proof.
+  intros G H. unfold dstep, dstep_gen. rewrite G. cbn [existsb].
+  assert (E : (match conn_of_dop o with Some _ => dstep0 true d o | None => dstep0 true d o end) = dstep0 true d o)
+    by (destruct (conn_of_dop o); reflexivity).
+  rewrite E. clear E.
+  assert (SAME : forall r, dsent_p p o r = [] -> exists ch', nth_error (r_ch (d_s (fst (d, r)))) p = Some ch' /\
+                 racc ch' = racc ch ++ dsent_p p o (snd (d, r))).
+  { intros r Z. cbn [fst snd]. exists ch. rewrite Z, app_nil_r. auto. }
+  assert (BASE : forall b D, (forall c, b = RClosed c -> True) ->
+            exists ch', nth_error (r_ch (d_s (mkD (fst (rstep (d_s d) b)) D (d_gone d)))) p = Some ch' /\
+                        racc ch' = racc ch ++ sent_p p b (snd (rstep (d_s d) b))).
+  { intros b D _. destruct (rstep_logs (d_s d) b p ch H) as [ch' [E1 [E2 _]]]. exists ch'. cbn [d_s]. auto. }
+  assert (KILL : forall q D,
+            is_dead (mkD (mkR (r_cap (d_s d)) (upd (N.to_nat q) (fun ch0 => mkRc [] [] (racc ch0) (rdel ch0)) (r_ch (d_s d))))
+                         (q :: D) (d_gone d)) (N.of_nat p) = false ->
+            exists ch', nth_error (r_ch (d_s (mkD (mkR (r_cap (d_s d)) (upd (N.to_nat q) (fun ch0 => mkRc [] [] (racc ch0) (rdel ch0)) (r_ch (d_s d))))
+                         (q :: D) (d_gone d)))) p = Some ch' /\ racc ch' = racc ch ++ []).
+  { intros q D HD. unfold is_dead in HD. cbn [d_dead existsb] in HD. apply orb_false_iff in HD. destruct HD as [HD _].
+    cbn [d_s r_ch]. rewrite nth_error_upd, H. destruct (Nat.eqb (N.to_nat q) p) eqn:EQ.
+    - apply Nat.eqb_eq in EQ. subst p. rewrite N2Nat.id, N.eqb_refl in HD. discriminate.
+    - exists ch. rewrite app_nil_r. auto. }
+  unfold dstep0. destruct (d_dead d) as [|x xs] eqn:DD.
+  - destruct o as [b|c m|q].
+    + intros _. destruct (BASE b [] (fun _ _ => I)) as [ch' [E1 E2]].
+      pose proof (rclosed_code (d_s d)) as RC.
+      destruct (rstep (d_s d) b) as [s' r] eqn:RS. cbn [fst snd d_s] in *. exists ch'. split; [exact E1|].
+      rewrite E2. f_equal. apply sent_p_lift. intros c ->. specialize (RC c). rewrite RS in RC. exact RC.
+    + intros _. destruct (BASE (REst c) [] (fun _ _ => I)) as [ch' [E1 E2]].
+      destruct (rstep (d_s d) (REst c)) as [s' r] eqn:RS. cbn [fst snd d_s] in *. exists ch'. split; [exact E1|].
+      rewrite E2. reflexivity.
+    + destruct (_ || _); [intros _; apply SAME; reflexivity|]. cbn [fst snd]. intros HD. apply (KILL q [] HD).
+  - destruct o as [b|c m|q].
+    + destruct b as [c1 p0 d0|c1 p0 id|c1|c1|p0 k].
+      * destruct (busy (d_s d) c1); [intros _; apply SAME; reflexivity|].
+        destruct (is_dead d p0); [intros _; apply SAME; reflexivity|].
+        intros _. destruct (BASE (RSubOpen c1 p0 d0) (x :: xs) (fun _ _ => I)) as [ch' [E1 E2]].
+        destruct (rstep (d_s d) (RSubOpen c1 p0 d0)) as [s' r] eqn:RS. cbn [fst snd d_s] in *. exists ch'. split; [exact E1|].
+        rewrite E2. f_equal. apply sent_p_lift. intros c E0. discriminate E0.
+      * destruct (busy (d_s d) c1); [intros _; apply SAME; reflexivity|].
+        destruct (is_dead d p0); [intros _; apply SAME; reflexivity|].
+        intros _. destruct (BASE (RSubFail c1 p0 id) (x :: xs) (fun _ _ => I)) as [ch' [E1 E2]].
+        destruct (rstep (d_s d) (RSubFail c1 p0 id)) as [s' r] eqn:RS. cbn [fst snd d_s] in *. exists ch'. split; [exact E1|].
+        rewrite E2. f_equal. apply sent_p_lift. intros c E0. discriminate E0.
+      * intros _. apply SAME. reflexivity.
+      * destruct (busy (d_s d) c1); [intros _; apply SAME; reflexivity|].
+        cbn [fst snd d_s d_dead r_ch]. intros HD. unfold is_dead in HD. cbn [d_dead] in HD.
+        rewrite nth_error_mapi, H. cbn [plus option_map]. unfold is_dead. rewrite DD, HD.
+        eexists. split; [reflexivity|]. destruct (send_one_logs (r_cap (d_s d)) c1 (IClosed c1) ch) as [A _].
+        rewrite A. unfold dsent_p. cbn [do_code].
+        match goal with |- context [if ?b then 1 else 3] => destruct b end; reflexivity.
+      * destruct (is_dead d p0); [intros _; apply SAME; reflexivity|].
+        intros _. destruct (BASE (RDrain p0 k) (x :: xs) (fun _ _ => I)) as [ch' [E1 E2]].
+        destruct (rstep (d_s d) (RDrain p0 k)) as [s' r] eqn:RS. cbn [fst snd d_s] in *. exists ch'. split; [exact E1|].
+        rewrite E2. f_equal. unfold sent_p. destruct (started r); reflexivity.
+    + destruct (busy (d_s d) c); [intros _; apply SAME; reflexivity|].
+      cbn [fst snd d_s d_dead r_ch]. intros HD. unfold is_dead in HD. cbn [d_dead] in HD.
+      rewrite nth_error_mapi, H. cbn [plus option_map]. unfold is_dead. rewrite DD, HD.
+      eexists. split; [reflexivity|]. destruct (send_one_logs (r_cap (d_s d)) c (IEst c) ch) as [A _].
+      rewrite A. unfold dsent_p, dstarted. cbn [do_code].
+      match goal with |- context [if ?b then 1 else 0] => destruct b end; reflexivity.
+    + destruct (_ || _); [intros _; apply SAME; reflexivity|]. cbn [fst snd]. intros HD. apply (KILL q (x :: xs) HD).
+Qed.
+
+Fixpoint dsent_all (p : nat) (l : list dop) (rs : list dout) : list item :=
+  match l, rs with
+  | o :: l', r :: rs' => dsent_p p o r ++ dsent_all p l' rs'
+  | _, _ => []
+  end.
+
+(* a dead protocol stays dead *)
+Lemma dead_mono_step d o p : is_dead d p = true -> is_dead (fst (dstep d o)) p = true.
+Proof.
+  intros HD. unfold dstep, dstep_gen.
+  assert (ST : forall fixed, is_dead (fst (dstep0 fixed d o)) p = true).
+  { intros fixed. unfold dstep0. destruct (d_dead d) as [|x xs] eqn:DD; [unfold is_dead in HD; rewrite DD in HD; discriminate|].
+    assert (KEEP : forall s' G', is_dead (mkD s' (x :: xs) G') p = true)
+      by (intros; unfold is_dead in *; rewrite DD in HD; exact HD).
+    destruct o as [b|c m|q].
+    - destruct b as [c1 p0 d0|c1 p0 id|c1|c1|p0 k].
+      + destruct (busy (d_s d) c1); [exact HD|]. destruct (is_dead d p0); [exact HD|].
+        destruct (rstep (d_s d) (RSubOpen c1 p0 d0)). apply KEEP.
+      + destruct (busy (d_s d) c1); [exact HD|]. destruct (is_dead d p0); [exact HD|].
+        destruct (rstep (d_s d) (RSubFail c1 p0 id)). apply KEEP.
+      + exact HD.
+      + destruct (busy (d_s d) c1); [exact HD | apply KEEP].
+      + destruct (is_dead d p0); [exact HD|]. destruct (rstep (d_s d) (RDrain p0 k)). apply KEEP.
+    - destruct (busy (d_s d) c); [exact HD|]. destruct fixed; apply KEEP.
+    - destruct (_ || _); [exact HD|]. cbn [fst]. unfold is_dead in *. cbn [d_dead existsb].
+      rewrite DD in HD. cbn [existsb] in HD. rewrite HD. apply orb_true_r. }
+  destruct (conn_of_dop o); [destruct (existsb _ (d_gone d)); [exact HD | apply ST] | apply ST].
+Qed.
+Lemma dead_mono l : forall d p, is_dead (dfinal d l) p = false -> is_dead d p = false.
+Proof.
+  induction l as [|o l IH]; intros d p H; cbn [dfinal] in H; [exact H|].
+  apply IH in H. destruct (is_dead d p) eqn:E; [|reflexivity].
+  rewrite (dead_mono_step d o p E) in H. discriminate.
+Qed.
+Lemma gone_final_nil l : forall d, d_gone d = [] -> d_gone (dfinal d l) = [].
+Proof. induction l as [|o l IH]; intros d G; cbn [dfinal]; [exact G | apply IH, gone_stays_nil, G]. Qed.
+
+Lemma dlogs_are_trace l : forall d p ch,
+  d_gone d = [] -> nth_error (r_ch (d_s d)) p = Some ch ->
+  is_dead (dfinal d l) (N.of_nat p) = false ->
+  exists ch', nth_error (r_ch (d_s (dfinal d l))) p = Some ch' /\
+              racc ch' = racc ch ++ dsent_all p l (drun d l).
+Proof.
+  induction l as [|o l IH]; intros d p ch G H HD; cbn [dfinal drun dsent_all] in *.
+  - exists ch. rewrite app_nil_r. auto.
+  - pose proof (dead_mono l _ _ HD) as HD1.
+    destruct (dstep_logs d o p ch G H HD1) as [ch1 [H1 A1]].
+    pose proof (gone_stays_nil d o G) as G1.
+    destruct (dstep d o) as [d1 r1]. cbn [fst snd] in *.
+    destruct (IH d1 p ch1 G1 H1 HD) as [ch2 [H2 A2]]. exists ch2. split; [exact H2|].
+    rewrite A2, A1, <- app_assoc. reflexivity.
+Qed.
+
+(* the connection-level events among them do not depend on the protocol: they are the accepted
+   established / closed reports of the history, in order *)
+Definition is_conn_item (i : item) : bool := match i with IEst _ | IClosed _ => true | _ => false end.
+Definition conn_rep (o : dop) (r : dout) : list item :=
+  match o with
+  | DEst c _ | DBase (REst c) => if dstarted r then [IEst c] else []
+  | DBase (RClosed c) => if do_code r =? 2 then [] else [IClosed c]
+  | _ => []
+  end.
+Fixpoint conn_reports (l : list dop) (rs : list dout) : list item :=
+  match l, rs with
+  | o :: l', r :: rs' => conn_rep o r ++ conn_reports l' rs'
+  | _, _ => []
+  end.
+Lemma conn_items_sent p o r : filter is_conn_item (dsent_p p o r) = conn_rep o r.
+Proof.
+  destruct o as [b|c m|q]; [destruct b as [c q d|c q i|c|c|q k]|..]; cbn [dsent_p conn_rep].
+  - destruct (dstarted r && Nat.eqb (N.to_nat q) p); reflexivity.
+  - destruct (dstarted r && Nat.eqb (N.to_nat q) p); reflexivity.
+  - destruct (dstarted r); reflexivity.
+  - destruct (do_code r =? 2); reflexivity.
+  - reflexivity.
+  - destruct (dstarted r); reflexivity.
+  - reflexivity.
+Qed.
+Lemma conn_items_all p l : forall rs, filter is_conn_item (dsent_all p l rs) = conn_reports l rs.
+Proof.
+  induction l as [|o l IH]; intros rs; cbn [dsent_all conn_reports]; [reflexivity|].
+  destruct rs as [|r rs]; [reflexivity|]. rewrite filter_app, conn_items_sent, IH. reflexivity.
+Qed.
+
+(* every protocol that is alive at the end of a history has been handed exactly the accepted
+   established / closed reports of that history, each once, in order — so whoever was told
+   "established" for a connection is told "closed" for it exactly when, and as often as, the
+   connection task reported it (once), unless the protocol exits first *)
+Lemma established_closed_paired l nproto cap p ch :
+  nth_error (r_ch (d_s (dfinal (dinit nproto cap) l))) p = Some ch ->
+  is_dead (dfinal (dinit nproto cap) l) (N.of_nat p) = false ->
+  filter is_conn_item (racc ch) = conn_reports l (drun (dinit nproto cap) l).
+Proof.
+  intros H HD.
+  assert (LT : (p < nproto)%nat).
+  { assert (LEN : forall l d, length (r_ch (d_s (dfinal d l))) = length (r_ch (d_s d))).
+    { clear. induction l as [|o l IH]; intros d; cbn [dfinal]; [reflexivity|]. rewrite IH. clear IH.
+      unfold dstep, dstep_gen.
+      assert (ST : length (r_ch (d_s (fst (dstep0 true d o)))) = length (r_ch (d_s d))).
+      { assert (ML : forall (f : nat -> rchan -> rchan) i (x : list rchan), length (mapi f i x) = length x).
+        { intros f i x. revert i. induction x as [|h t IHx]; intros i; cbn [mapi length]; [reflexivity | rewrite IHx; reflexivity]. }
+        unfold dstep0. destruct (d_dead d) as [|x xs].
+        - destruct o as [b|c m|q].
+          + pose proof (rstep_len (d_s d) b) as RL. destruct (rstep (d_s d) b). exact RL.
+          + pose proof (rstep_len (d_s d) (REst c)) as RL. destruct (rstep (d_s d) (REst c)). exact RL.
+          + destruct (_ || _); [reflexivity|]. cbn [fst d_s r_ch]. apply upd_length.
+        - destruct o as [b|c m|q].
+          + destruct b as [c1 p0 d0|c1 p0 id|c1|c1|p0 k].
+            * destruct (busy (d_s d) c1); [reflexivity|]. destruct (is_dead d p0); [reflexivity|].
+              pose proof (rstep_len (d_s d) (RSubOpen c1 p0 d0)) as RL. destruct (rstep (d_s d) (RSubOpen c1 p0 d0)). exact RL.
+            * destruct (busy (d_s d) c1); [reflexivity|]. destruct (is_dead d p0); [reflexivity|].
+              pose proof (rstep_len (d_s d) (RSubFail c1 p0 id)) as RL. destruct (rstep (d_s d) (RSubFail c1 p0 id)). exact RL.
+            * reflexivity.
+            * destruct (busy (d_s d) c1); [reflexivity|]. cbn [fst d_s r_ch]. apply ML.
+            * destruct (is_dead d p0); [reflexivity|].
+              pose proof (rstep_len (d_s d) (RDrain p0 k)) as RL. destruct (rstep (d_s d) (RDrain p0 k)). exact RL.
+          + destruct (busy (d_s d) c); [reflexivity|]. cbn [fst d_s r_ch]. apply ML.
+          + destruct (_ || _); [reflexivity|]. cbn [fst d_s r_ch]. apply upd_length. }
+      destruct (conn_of_dop o); [destruct (existsb _ (d_gone d)); [reflexivity | exact ST] | exact ST]. }
+    assert (p < length (r_ch (d_s (dfinal (dinit nproto cap) l))))%nat by (apply nth_error_Some; congruence).
+    rewrite LEN in H0. unfold dinit, rinit in H0. cbn [d_s r_ch] in H0. rewrite repeat_length in H0. exact H0. }
+  assert (E0 : nth_error (r_ch (d_s (dinit nproto cap))) p = Some (mkRc [] [] [] [])).
+  { unfold dinit, rinit. cbn [d_s r_ch]. clear -LT. revert p LT. induction nproto as [|n IH]; intros p LT; [lia|].
+    cbn [repeat]. destruct p; [reflexivity|]. cbn [nth_error]. apply IH. lia. }
+  destruct (dlogs_are_trace l (dinit nproto cap) p _ eq_refl E0 HD) as [ch' [H' A]].
+  rewrite H in H'. inversion H'; subst ch'. rewrite A. cbn [racc app]. apply conn_items_all.
+Qed.
